@@ -219,6 +219,13 @@ pub fn run(args: &[String]) -> i32 {
                     }
                 }
                 e["scalars"] = Value::Object(sc);
+                let mut mt = serde_json::Map::new();
+                if let Some(m) = c["modelTypeTexts"].as_object() {
+                    for (name, t) in m {
+                        mt.insert(name.clone(), parse_ts_type(t.as_str().unwrap_or("unknown")));
+                    }
+                }
+                e["modelTypes"] = Value::Object(mt);
                 if want_maps {
                     e["inputs"] = json!(inputs);
                     let mut maps = vec![];
